@@ -1946,8 +1946,8 @@ def _cvc5(hyps, goal, timeout_ms):
     return ans
 
 
-def discharge(name, hyps, goal, timeout_ms=10000):
-    """-> (status, backend, seconds, detail)"""
+def discharge(name, hyps, goal, timeout_ms=10000, one_round=False):
+    """-> (status, backend, seconds, detail).  one_round: a single z3 attempt (used once the proof of the function is already lost, to bound the cost)."""
     g = z3.simplify(goal)
     if z3.is_true(g):
         return PROVED, "z3-simplify", 0.0, "goal simplifies to true"
@@ -1956,6 +1956,8 @@ def discharge(name, hyps, goal, timeout_ms=10000):
         return PROVED, "z3", dt, "unsat"
     if r == z3.sat:
         return FAILED, "z3", dt, "sat: " + _model_text(s)
+    if one_round:
+        return FAILED, "z3", dt, "not discharged: z3 %s (single attempt: the proof of this function is already lost)" % r
     # unknown: other solver, then larger budget
     ans = _cvc5(hyps, goal, timeout_ms * 3)
     if ans == "unsat":
